@@ -331,7 +331,9 @@ func init() {
 			i3 := strings.Index(b, "os.Remove(path.(string))")
 			i4 := strings.Index(b, "f.tempFiles.Delete(defaultTempFileSST)")
 			i5 := strings.Index(b, "os.Remove(f.sharedStringTemp.Name())")
-			slOK = i1 >= 0 && i2 > i1 && i3 > i2 && i4 > i3 && i5 > i4
+			// SharedStrings is reset in the branch that promotes the spilled table (before the index teardown)
+			i6 := strings.Index(b, "f.SharedStrings = nil")
+			slOK = i1 >= 0 && i2 > i1 && i3 > i2 && i4 > i3 && i5 > i4 && i6 > i3 && i6 < strings.Index(b, "if f.sharedStringTemp != nil") && strings.Count(b, "f.SharedStrings") == 1
 		}
 		fmt.Fprintf(w, "def sstLoaderPromotesThenRemoves : Bool := %s\n", c12Bool(slOK))
 		// callers that consult the decoded shared string table call the loader first
